@@ -48,3 +48,4 @@ Proof. intros H. unfold s_add. destruct (s_mem k s) eqn:E; [exact H|].
   clear E. induction s as [|a s IH]; [constructor; [intros []|constructor]|]. inversion H; subst. cbn. constructor.
   - rewrite in_app_iff. cbn. intros [Q|[Q|[]]]; [contradiction|]. apply Hk. now left.
   - apply IH; auto. intros Q. apply Hk. now right. Qed.
+Definition d_get {A} (k : nat) (dflt : A) (d : list (nat * A)) : A := match d_find k d with Some x => x | None => dflt end.
